@@ -32,3 +32,67 @@ func TestC19Thorough(t *testing.T) {
 	bz, _ := os.ReadFile(runner.Root + "/evidence/C19.json")
 	t.Logf("exit=%d\n%s", code, bz)
 }
+
+// TestC19OracleSelfCheck feeds deliberately wrong outcomes to the judge and
+// corrupts a value in place, to show that the oracle and the immutability
+// detector are not vacuous.
+func TestC19OracleSelfCheck(t *testing.T) {
+	if c19LayoutErr != nil {
+		t.Fatal(c19LayoutErr)
+	}
+	mk := func(s string) (d rmathDec) { return c19MustDec(s) }
+	x, y := mk("1.5"), mk("25e-7")
+	ex := c19Exacts(c19MustRatOf(x), c19MustRatOf(y))
+	classes := func(op int, r c19Res) map[string]bool {
+		vs, _, _ := c19Judge(op, ex, &r)
+		m := map[string]bool{}
+		for _, v := range vs {
+			m[v.class] = true
+		}
+		return m
+	}
+	// a correct sum passes, a difference passed off as the sum does not
+	if c := classes(c19OpAdd, c19Apply(c19OpAdd, x, y)); len(c) != 0 {
+		t.Fatalf("correct Add flagged: %v", c)
+	}
+	if c := classes(c19OpAdd, c19Apply(c19OpSub, x, y)); !c["not-exact"] {
+		t.Fatalf("wrong Add not flagged: %v", c)
+	}
+	// a negative value with a nil error is flagged for balance subtraction
+	neg := c19Apply(c19OpSub, y, x)
+	ex2 := c19Exacts(c19MustRatOf(y), c19MustRatOf(x))
+	vs, _, _ := c19Judge(c19OpSafeSubBalance, ex2, &neg)
+	found := false
+	for _, v := range vs {
+		found = found || v.class == "negative-without-error"
+	}
+	if !found {
+		t.Fatalf("negative balance not flagged: %v", vs)
+	}
+	// 33 correct digits of 1/3 are not enough, 34 are
+	third := c19Exacts(c19MustRatOf(mk("1")), c19MustRatOf(mk("3")))
+	r33 := c19Res{hasDec: true, dec: mk("0." + repeat("3", 33))}
+	r34 := c19Res{hasDec: true, dec: mk("0." + repeat("3", 34))}
+	if v, _, _ := c19Judge(c19OpQuo, third, &r33); len(v) == 0 {
+		t.Fatal("33-digit quotient accepted")
+	}
+	if v, _, _ := c19Judge(c19OpQuo, third, &r34); len(v) != 0 {
+		t.Fatalf("34-digit quotient flagged: %v", v)
+	}
+	// division by zero with nil error
+	zero := c19Exacts(c19MustRatOf(mk("1")), c19MustRatOf(mk("0")))
+	if v, _, _ := c19Judge(c19OpQuo, zero, &r34); len(v) == 0 {
+		t.Fatal("division by zero with nil error accepted")
+	}
+	// in-place corruption of a coefficient word is detected
+	d := mk("9999999999999999999999999999.999999")
+	alias := d // struct copy shares the array
+	s := c19TakeSnap(&d)
+	c19View(&alias).Coeff.Bits()[0] ^= 1
+	if diff, _ := s.check(&d); diff == "" {
+		t.Fatal("in-place corruption through a struct copy not detected")
+	}
+	if !s.overlaps(&alias) {
+		t.Fatal("shared array not detected")
+	}
+}
